@@ -116,6 +116,33 @@ def gen_hints(rng):
     return out
 
 
+def add_tor_twins(rng, hints):
+    """a field-wise mutation that keeps its original: in front of some well-formed direct-tcp-v1 hints (top level or inside
+    a relay) the same fields appear once more under the type tor-tcp-v1 (a peer reachable both ways says so in this order).
+    Without Tor the twin is an unsupported hint; it must not cost the supported one its connection attempt.
+    Returns the (host, port) targets that were given a twin."""
+    twins = set()
+
+    def good(h):
+        return isinstance(h, dict) and h.get("type") == "direct-tcp-v1" and h.get("hostname") in HOSTS[:4] and isinstance(h.get("port"), int) \
+            and not isinstance(h.get("port"), bool) and 1 <= h["port"] <= 65535 and isinstance(h.get("priority"), (int, float)) and not isinstance(h.get("priority"), bool) \
+            and h["priority"] == h["priority"] and abs(h["priority"]) != float("inf")
+
+    def walk(lst, top=True):
+        i = 0
+        while i < len(lst):
+            h = lst[i]
+            if good(h) and rng.random() < 0.3:
+                lst.insert(i, dict(h, type="tor-tcp-v1"))
+                twins.add((h["hostname"], h["port"]))
+                i += 1
+            elif top and isinstance(h, dict) and h.get("type") == "relay-v1" and isinstance(h.get("hints"), list):
+                walk(h["hints"], top=False)       # (a relay inside a relay is no hint: nothing in it counts)
+            i += 1
+    walk(hints)
+    return twins
+
+
 class FakeTor:
     """what wormhole needs of txtorcon.Tor: stream_via() refuses non-public numeric addresses with ValueError
     (txtorcon's own predicate) and otherwise gives an endpoint (here: straight to the simulated network)"""
@@ -180,6 +207,7 @@ def run_transit(spec):
     rng = world.work_rng
     r = world.reactor
     hints = gen_hints(rng)
+    twins = add_tor_twins(rng, hints) if spec["seed"] % 3 == 1 else set()
     tor = FakeTor(r) if spec.get("tor") else None
     if tor is not None:
         # onion-ish hints with the kinds of host a peer may put there (names, public and non-public literals)
@@ -240,6 +268,13 @@ def run_transit(spec):
             viol.append({"key": "C20/transit/honest-hints-ignored", "msg": "an honest peer was listening and its hints were in the list, yet connect() failed with %r" % (res.failure.value if res.failure else None),
                          "witness": wit})
     dialled = {(h, p) for (h, p, _) in r.dials[dials_before:]}
+    if peer is None and tor is None and res is not None and res.done and not viol:
+        # nobody could win early, so every contender has had its attempt: a supported hint must not have lost its own
+        # because an unsupported sibling with the same fields came first
+        for (h, p) in sorted(twins - dialled):
+            viol.append({"key": "C20/transit/valid-hint-not-dialled/shadowed-by-an-unsupported-twin", "msg": "%s:%d is named by a well-formed direct-tcp-v1 hint that follows a tor-tcp-v1 hint with the same fields; it was never dialled (dialled: %s)" % (
+                h, p, sorted(dialled, key=repr)[:6]), "witness": wit})
+            break
     for (h, p) in sorted(dialled - allowed, key=repr):
         viol.append({"key": "C20/transit/dialled-invalid-hint", "msg": "dialled %r:%r which no valid hint named" % (h, p), "witness": wit})
         break
@@ -249,7 +284,7 @@ def run_transit(spec):
             break
     world.finish()
     return {"violations": viol, "nontrivial": json.dumps(wit["hints"], sort_keys=True)[:300] if bad else None,
-            "counters": {"path1_cases": 1, "tor_cases": int(tor is not None), "tor_refusals": tor.refused if tor else 0, "malformed_elements": bad, "dials": len(dialled), "honest_connected": int(bool(peer is not None and res is not None and res.value is not None))},
+            "counters": {"path1_cases": 1, "tor_cases": int(tor is not None), "tor_refusals": tor.refused if tor else 0, "malformed_elements": bad, "dials": len(dialled), "valid_hints_behind_an_unsupported_twin": len(twins), "honest_connected": int(bool(peer is not None and res is not None and res.value is not None))},
             "sample": {"kind": "transit", "hints": wit["hints"][:4], "dialled": sorted(dialled, key=repr)[:5],
                        "result": (repr(res.failure.value)[:80] if res is not None and res.failure else "connected") if res is not None else None}}
 
@@ -267,10 +302,13 @@ def run_dilation(spec):
     viol = []
     total_bad = 0
     allowed = set()
+    twins = set()
     all_hints = []
     errs_before = len(MON.errors)
     for rnd in range(rng.randint(1, 3)):
         hints = gen_hints(rng)
+        if spec["seed"] % 3 == 1:
+            twins |= add_tor_twins(rng, hints)
         ok, bad = allowed_targets(hints)
         allowed |= ok
         total_bad += bad
@@ -297,6 +335,11 @@ def run_dilation(spec):
         viol.append({"key": "C20/dilation/escaped/%s" % e[3], "msg": e[4], "witness": dict(wit, traceback=e[5])})
         break
     dialled = {(h, p) for (h, p, _) in r.dials if p != 4000}
+    if not viol:
+        for (h, p) in sorted(twins - dialled):
+            viol.append({"key": "C20/dilation/valid-hint-not-dialled/shadowed-by-an-unsupported-twin", "msg": "%s:%d is named by a well-formed direct-tcp-v1 hint that follows a tor-tcp-v1 hint with the same fields; it was never dialled (dialled: %s)" % (
+                h, p, sorted(dialled, key=repr)[:6]), "witness": wit})
+            break
     for (h, p) in sorted(dialled - allowed, key=repr):
         viol.append({"key": "C20/dilation/dialled-invalid-hint", "msg": "dialled %r:%r which no valid hint named" % (h, p), "witness": wit})
         break
@@ -307,7 +350,7 @@ def run_dilation(spec):
     sch.drain(120.0, 10000, until=lambda: dp.a.closed and dp.b.closed)
     world.finish()
     return {"violations": viol, "nontrivial": json.dumps(all_hints, sort_keys=True)[:300] if total_bad else None,
-            "counters": {"path2_cases": 1, "malformed_elements": total_bad, "dials": len(dialled)},
+            "counters": {"path2_cases": 1, "malformed_elements": total_bad, "dials": len(dialled), "valid_hints_behind_an_unsupported_twin": len(twins)},
             "sample": {"kind": "dilation", "hints": all_hints[0][:3], "dialled": sorted(dialled, key=repr)[:5], "B_state": dp.mstate("B")}}
 
 
